@@ -189,10 +189,30 @@ fn header_text(h: &Value) -> Option<String> {
 }
 
 fn cookie_header(cookie: &Value, name: &str) -> Option<String> {
+    let sp = cookie["sp"].as_str().unwrap_or("other");
     match cookie["state"].as_str().unwrap() {
-        "absent" => Some("other=1".to_string()),
-        "valid" => Some(format!("other=1; {}={}", name, cookie["l"].as_str().unwrap())),
-        _ => Some(format!("{}=not-a-locale; other=1", name)),
+        "valid" => {
+            let l = cookie["l"].as_str().unwrap();
+            let decoy = if l == "de" { "fr" } else { "de" };
+            Some(match sp {
+                "only" => format!("{}={}", name, l),
+                "first" => format!("{}={}; other=1", name, l),
+                "decoy" => format!("x_{}={}; {}={}; {}2={}", name, decoy, name, l, name, decoy),
+                _ => format!("other=1; {}={}", name, l),
+            })
+        }
+        "absent" => match sp {
+            "none" => None,
+            "prefix" => Some(format!("x_{}=de; other=1", name)),
+            "suffix" => Some(format!("other=1; {}2=de", name)),
+            _ => Some("other=1".to_string()),
+        },
+        _ => Some(match sp {
+            "empty" => format!("{}=; other=1", name),
+            "case" => format!("other=1; {}=FR", name),
+            "noeq" => format!("{}; other=1", name),
+            _ => format!("{}=not-a-locale; other=1", name),
+        }),
     }
 }
 
